@@ -50,7 +50,9 @@
 (*    the real `eval` on every enumerated tree and environment before it   *)
 (*    is used as the oracle (MachineryError otherwise).                    *)
 (*                                                                         *)
-(* 4. Exprs(A, n): all trees with <= n operator nodes over alphabet A.      *)
+(* 4. Exprs(A, n): all trees with <= n operator nodes over alphabet A      *)
+(*    (ExprSeq(A, n) enumerates it; an "operator node" is one application  *)
+(*    of an operator kind Mk1/Mk2/Mk3, e.g. "IfExp", "ChainLtLt", "FSpec").*)
 (*    The i-th name leaf (left to right) is A.names[((i-1) % m) + 1]:      *)
 (*    for the mechanisms under test (bytecode shapes, operator             *)
 (*    precedence) only the shape matters, and at most m free names keep    *)
@@ -591,8 +593,9 @@ Alphabets == [
     \* generator shells (x, y: loop variables)
     gen    |-> [un |-> <<"Not">>, bin |-> <<"And", "Or", "Eq">>, ter |-> <<"IfExp">>, consts |-> <<>>, names |-> GenNames],
     gencond |-> [un |-> <<"Not">>, bin |-> <<"And", "Or">>, ter |-> <<"IfExp">>, consts |-> <<>>, names |-> <<"x", "a">>],
-    \* one binary operator of every precedence level, unary operators, conditional expression (C04 thorough, depth 3)
-    prec   |-> [un |-> <<"Not", "USub">>, bin |-> <<"Or", "And", "Lt", "BitOr", "BitXor", "BitAnd", "LShift", "Sub", "FloorDiv", "Pow">>,
+    \* one binary operator of every precedence level (** only at depth 2, in `wide`: towers of powers explode), unary operators,
+    \* conditional expression (C04 thorough, depth 3)
+    prec   |-> [un |-> <<"Not", "USub">>, bin |-> <<"Or", "And", "Lt", "BitOr", "BitXor", "BitAnd", "RShift", "Sub", "Mult">>,
                 ter |-> <<"IfExp">>, consts |-> <<>>, names |-> Names3],
     \* every operator kind
     wide   |-> [un |-> Un1All, bin |-> Bin2All, ter |-> Ter3All, consts |-> <<>>, names |-> Names3],
